@@ -36,13 +36,13 @@ func Calls(fn *ssa.Function) []ssa.CallInstruction {
 func CalleeName(c ssa.CallInstruction) string {
 	cc := c.Common()
 	if cc.IsInvoke() {
-		return "invoke " + types.TypeString(cc.Value.Type(), shortQual) + "." + cc.Method.Name()
+		return "invoke " + aliasTypeString(types.TypeString(cc.Value.Type(), shortQual)) + "." + N(cc.Method)
 	}
 	if sc := cc.StaticCallee(); sc != nil {
 		return QualFuncName(sc)
 	}
 	if b, ok := cc.Value.(*ssa.Builtin); ok {
-		return "builtin " + b.Name()
+		return "builtin " + N(b)
 	}
 	return "dynamic"
 }
@@ -63,7 +63,7 @@ func QualFuncName(fn *ssa.Function) string {
 		fn = o
 	}
 	if recv := fn.Signature.Recv(); recv != nil {
-		return "(" + types.TypeString(recv.Type(), shortQual) + ")." + fn.Name()
+		return "(" + aliasTypeString(types.TypeString(recv.Type(), shortQual)) + ")." + N(fn)
 	}
 	pk := ""
 	if fn.Pkg != nil && fn.Pkg.Pkg.Path() != RootPath {
@@ -71,7 +71,7 @@ func QualFuncName(fn *ssa.Function) string {
 	} else if fn.Pkg == nil && fn.Object() != nil && fn.Object().Pkg() != nil && fn.Object().Pkg().Path() != RootPath {
 		pk = fn.Object().Pkg().Path() + "."
 	}
-	return pk + fn.Name()
+	return pk + N(fn)
 }
 
 // IsCallTo reports whether c statically calls one of the named functions
@@ -152,31 +152,31 @@ func pathOf(v ssa.Value, depth int) string {
 		}
 		return "p?"
 	case *ssa.FreeVar:
-		return "fv:" + x.Name()
+		return "fv:" + N(x)
 	case *ssa.Global:
-		return "g:" + x.Name()
+		return "g:" + N(x)
 	case *ssa.UnOp:
 		if x.Op == token.MUL {
 			switch a := x.X.(type) {
 			case *ssa.FieldAddr:
-				return pathOf(a.X, depth+1) + "." + FieldOfAddr(a).Name()
+				return pathOf(a.X, depth+1) + "." + N(FieldOfAddr(a))
 			case *ssa.Global:
-				return "g:" + a.Name()
+				return "g:" + N(a)
 			case *ssa.FreeVar:
-				return "fv:" + a.Name()
+				return "fv:" + N(a)
 			case *ssa.Alloc:
-				return "*" + a.Name()
+				return "*" + N(a)
 			case *ssa.IndexAddr:
 				return pathOf(a.X, depth+1) + "[]"
 			}
 			return "*" + pathOf(x.X, depth+1)
 		}
 	case *ssa.FieldAddr:
-		return "&" + pathOf(x.X, depth+1) + "." + FieldOfAddr(x).Name()
+		return "&" + pathOf(x.X, depth+1) + "." + N(FieldOfAddr(x))
 	case *ssa.Field:
-		return pathOf(x.X, depth+1) + "." + FieldOfVal(x).Name()
+		return pathOf(x.X, depth+1) + "." + N(FieldOfVal(x))
 	case *ssa.Alloc:
-		return "&" + x.Name()
+		return "&" + N(x)
 	case *ssa.TypeAssert:
 		return pathOf(x.X, depth+1)
 	case *ssa.Extract:
@@ -189,7 +189,7 @@ func pathOf(v ssa.Value, depth int) string {
 		}
 		return "const:" + x.Value.ExactString()
 	}
-	return "v:" + v.Name()
+	return "v:" + N(v)
 }
 
 // AddrPath renders the path of the cell an address value points to:
@@ -197,13 +197,13 @@ func pathOf(v ssa.Value, depth int) string {
 func AddrPath(addr ssa.Value) string {
 	switch a := addr.(type) {
 	case *ssa.FieldAddr:
-		return PathOf(a.X) + "." + FieldOfAddr(a).Name()
+		return PathOf(a.X) + "." + N(FieldOfAddr(a))
 	case *ssa.Global:
-		return "g:" + a.Name()
+		return "g:" + N(a)
 	case *ssa.Alloc:
-		return "*" + a.Name()
+		return "*" + N(a)
 	case *ssa.FreeVar:
-		return "fv:" + a.Name()
+		return "fv:" + N(a)
 	case *ssa.IndexAddr:
 		return PathOf(a.X) + "[]"
 	}
@@ -288,7 +288,7 @@ func (l Leaf) String() string {
 	case "call":
 		return fmt.Sprintf("call(%s)#%d", CalleeName(l.Call), l.Index)
 	}
-	return l.Kind + "(" + l.V.Name() + ")"
+	return l.Kind + "(" + N(l.V) + ")"
 }
 
 // Origins traces v backwards through phis, conversions, arithmetic, slicing,
@@ -837,7 +837,7 @@ func LoadsOfField(fn *ssa.Function, fld *types.Var) []*ssa.UnOp {
 func (p *Prog) describeInstr(in ssa.Instruction) string {
 	s := in.String()
 	if v, ok := in.(ssa.Value); ok {
-		s = v.Name() + " = " + s
+		s = N(v) + " = " + s
 	}
 	if len(s) > 120 {
 		s = s[:117] + "..."
